@@ -333,4 +333,84 @@ def storeCompressed (isEmpty : Tmpl → Bool) (N : Nat) (E : Exp) : Doc := compr
 def reloadCompressed (isEmpty : Tmpl → Bool) (N : Nat) (E : Exp) : Exp :=
   { doc := storeCompressed isEmpty N E, plat := E.plat, patches := [] }
 
+/-! ## sessions: the instance directory over the lifetime of an experiment
+
+The description on disk is written by more than one experiment object: the one that created the instance, and every
+object that loaded the directory later.  A load either updates the instance files (`Experiment.experimentFromInstance`,
+default `updateInstanceConfiguration=True`: what ewrap/etest/ememo/einspect call) or leaves them alone
+(`Experiment(dir, platform, is_instance=True, updateInstanceConfiguration=False)`: what `elaunch --restart` on the same
+platform and the database front-end do).  Whichever way the object was obtained, the controller that runs it
+instantiates further DoWhile iterations through `instantiate_dowhile_next_iteration(do_while, k, True)`, which stores the
+description unconditionally (graph.py 3123-3124: `if store_flowir_to_disk: store_unreplicated_flowir_to_disk()`), and an
+explicit `store_unreplicated_flowir_to_disk()` is unconditional too.  The flag of the configuration object
+(`update_instance_files`) is consulted only while the object is constructed (conf.py `_generate_instance_files`). -/
+
+inductive Step where
+  /-- `instantiate_dowhile_next_iteration(…, store_flowir_to_disk=True)` by the current experiment object; the
+  argument is the list of components `instantiate_dowhile` produced for the new iteration -/
+  | iterate (newComps : List Comp)
+  /-- the directory is loaded for platform `Q` (`0` = none named); `update` = `updateInstanceConfiguration` -/
+  | load (Q : Name) (update : Bool)
+  /-- explicit `store_unreplicated_flowir_to_disk()` of the current experiment object -/
+  | store
+  deriving Repr
+
+structure Session where
+  /-- the experiment object that currently drives the instance -/
+  exp : Exp
+  /-- `update_instance_files` of its configuration object -/
+  writable : Bool
+  /-- conf/flowir_instance.yaml -/
+  disk : Doc
+  /-- its `platforms` field -/
+  plats : List Name
+  deriving Repr
+
+/-- `Experiment.experimentFromPackage`: the creating object stores the description -/
+def Session.create (N : Nat) (E : Exp) : Session :=
+  { exp := E, writable := true, disk := store N E, plats := storedPlatforms E.plat }
+
+def step (N : Nat) (S : Session) : Step → Session
+  | .iterate cs =>
+    let E := addIteration S.exp cs
+    { S with exp := E, disk := store N E, plats := storedPlatforms E.plat }
+  | .load Q upd =>
+    if loadable S.plats Q then
+      let E : Exp := { doc := S.disk, plat := Q, patches := [] }
+      if upd then { exp := E, writable := true, disk := store N E, plats := storedPlatforms Q }
+      else { exp := E, writable := false, disk := S.disk, plats := S.plats }
+    else S  -- `FlowIRPlatformUnknown`: no object is created, nothing is written
+  | .store => { S with disk := store N S.exp, plats := storedPlatforms S.exp.plat }
+
+def runSteps (N : Nat) (S : Session) (steps : List Step) : Session := steps.foldl (step N) S
+
+/-- identifiers of the components instantiated by the `iterate` steps of a history, in order -/
+def iterIds : List Step → List (Nat × Name × Bool)
+  | [] => []
+  | .iterate cs :: r => cs.map (fun c => (c.stage, c.name, c.isDoc)) ++ iterIds r
+  | _ :: r => iterIds r
+
+/-- every load of the history names platform `P` -/
+def loadsName (P : Name) : List Step → Bool
+  | [] => true
+  | .load Q _ :: r => Q == P && loadsName P r
+  | _ :: r => loadsName P r
+
+/-- the decidable hypothesis of the session theorems: the description every `iterate` step produces resolves (the
+components of a new iteration bring their own variables; the other steps keep `resolves`) -/
+def stepsResolve (N : Nat) (S : Session) : List Step → Bool
+  | [] => true
+  | .iterate cs :: r =>
+    resolves N (addIteration S.exp cs).doc S.exp.plat && stepsResolve N (step N S (.iterate cs)) r
+  | st :: r => stepsResolve N (step N S st) r
+
+/-- NOT the code that exists: an `iterate` step that stores only when the configuration object was created with
+`updateInstanceFiles=True` (modelled for `Witness.C07`: such a gate loses the iterations of a restarted experiment) -/
+def stepGated (N : Nat) (S : Session) : Step → Session
+  | .iterate cs =>
+    let E := addIteration S.exp cs
+    if S.writable then { S with exp := E, disk := store N E, plats := storedPlatforms E.plat }
+    else { S with exp := E }
+  | st => step N S st
+
 end St4sd.Instance
